@@ -22,3 +22,10 @@ Fixpoint tree_return (m : pomdp) (v0 : vlist) (t : ptree) (tau : vec) : Q :=
       Qred (rew_at m tau a + gam (pm m) * go kids O)
     end
   end.
+
+(* one-step look-ahead of a surface w at the unnormalised belief b for action a (the defining
+   mathematics of a point-based backup's value; best_action_backup_value / _exact in Properties_C04) *)
+Definition lookahead (m : pomdp) (w : vlist) (b : vec) (a : nat) : Q :=
+  rew_at m b a + gam (pm m) * qsum (map (fun o => vbest w (tau_step m b a o)) (seq 0 (nO m))).
+Definition lookahead_best (m : pomdp) (w : vlist) (b : vec) : Q :=
+  maxl (map (lookahead m w b) (seq 0 (nA (pm m)))).
